@@ -583,14 +583,19 @@ class H2Server(Peer):
             n_open = self.conn.open_inbound_streams
             if n_open > self.max_open:
                 self.max_open = n_open
-            if self.settings_acked == 0 and n_open > self.max_open_pre_ack:
-                self.max_open_pre_ack = n_open
             if isinstance(ev, h2.events.RequestReceived):
                 self.streams[ev.stream_id] = {
                     "headers": list(ev.headers), "body": b"", "ended": False,
                     "data_frames": [], "responded": False,
                 }
                 self.order.append(ev.stream_id)
+                if self.settings_acked == 0:
+                    # streams open before the client acknowledged our SETTINGS, counted in the order of the frames
+                    # (h2 has parsed the whole segment before the first event is handled here, so its own counter
+                    # would also include streams opened *after* the acknowledgement in the same segment)
+                    open_now = len([sid for sid in self.order if not self.streams[sid]["responded"]])
+                    if open_now > self.max_open_pre_ack:
+                        self.max_open_pre_ack = open_now
                 if self.goaway_sent:
                     self.streams_after_goaway.append(ev.stream_id)
                 if self.policy is not None and hasattr(self.policy, "on_headers"):
